@@ -38,6 +38,8 @@ struct Cfg {
     hostile_frames: bool,
     faults: bool,
     sink_profiles: Vec<u8>,
+    /// number of peers whose registration is queued before the router is polled for the first time
+    prefill: usize,
 }
 
 fn payload(peer: usize, seq: u32, rng: &mut Rng) -> Bytes {
@@ -66,15 +68,18 @@ fn sink_plan(profile: u8) -> SinkPlan {
 
 fn gen_cfg(rng: &mut Rng, family: &str) -> Cfg {
     let (n_pubs, n_subs) = match family {
+        // registration bursts: dozens of mostly idle peers queue up between two polls
+        "burst" => (rng.range(1, 45) as usize, rng.below(45) as usize),
         "c09" => (rng.below(4) as usize, rng.below(4) as usize),
         "c08" => (rng.range(1, 3) as usize, rng.range(1, 4) as usize),
         _ => (rng.range(1, 3) as usize, rng.below(5) as usize),
     };
-    let items = (0..n_pubs).map(|_| rng.below(5) as u32).collect();
-    let steps = rng.range(10, 70) as usize;
+    let items = (0..n_pubs).map(|_| if family == "burst" { (rng.below(4) == 0) as u32 } else { rng.below(5) as u32 }).collect();
+    let steps = if family == "burst" { rng.range(40, 260) as usize } else { rng.range(10, 70) as usize };
     let spurious = matches!(family, "c01" | "c08" | "c11") && rng.pct(30);
     let close_at = match family {
         "c16" => Some(rng.usize(steps)),
+        "burst" if rng.pct(50) => Some(rng.usize(steps)),
         "c09" if rng.pct(30) => Some(rng.usize(steps)),
         _ => None,
     };
@@ -94,6 +99,7 @@ fn gen_cfg(rng: &mut Rng, family: &str) -> Cfg {
         hostile_frames: family == "c11",
         faults: family == "c08" || (family == "c16" && rng.pct(30)),
         sink_profiles,
+        prefill: if family == "burst" && rng.pct(60) { rng.usize(n_pubs + n_subs + 1) } else { 0 },
     }
 }
 
@@ -661,6 +667,14 @@ pub fn run(seed: u64, family: &str, keep_dump: bool) -> RunResult {
         }
     }
     let mut remaining: HashMap<usize, u32> = sim.pubs.iter().copied().zip(cfg.items.iter().copied()).collect();
+    if cfg.prefill > 0 {
+        let mut all: Vec<usize> = sim.pubs.iter().chain(sim.subs.iter()).copied().collect();
+        for _ in 0..cfg.prefill.min(all.len()) {
+            let k = sim.rng.usize(all.len());
+            let p = all.swap_remove(k);
+            sim.register(p);
+        }
+    }
 
     #[derive(Clone, Copy, Debug)]
     enum A {
@@ -869,7 +883,7 @@ pub fn run(seed: u64, family: &str, keep_dump: bool) -> RunResult {
         "engine": "routersim/pubsub", "family": family, "seed": seed,
         "n_pubs": cfg.n_pubs, "n_subs": cfg.n_subs, "items": cfg.items, "steps": cfg.steps,
         "spurious_polls": cfg.spurious, "close_at": cfg.close_at, "close_at_end": cfg.close_at_end,
-        "faults": cfg.faults, "sink_profiles": cfg.sink_profiles,
+        "faults": cfg.faults, "sink_profiles": cfg.sink_profiles, "registrations_queued_before_first_poll": cfg.prefill,
     });
     let dump = if keep_dump || !sim.findings.is_empty() {
         Some(dump_world(&w, 400))
